@@ -1,4 +1,4 @@
-import IOptProofs.EvNum
+import IOptProofs.EvNumAll
 import Mathlib.Data.Rat.Floor
 import Mathlib.Tactic.NormNum
 /-!
@@ -45,6 +45,53 @@ example : ∀ i (hp : i < (p2d [(-1 : ℚ), 0] [2, 3] ([(3 : Int), -1].map fun (
         have : i = 0 ∨ i = 1 := by simp at h1; omega
         rcases this with rfl | rfl <;> norm_num)
     (by decide)).2
+
+/-- **C07 (cell)**: for `0 ≤ x < 1` and `i = ⌊x·(2^n)^m⌋₊` (the subinterval containing `x`),
+`__GetYonX` maps `x` to the centre of cell `i`: `(cubeY n (digitsOf n m i))_k / 2^(m+1)`.
+So every point of one subinterval has the same image. -/
+theorem C07_image_cell {n : Nat} (hn : 2 ≤ n ∧ n ≤ 5) (m : Nat) (x : α) (h0 : 0 ≤ x) (h1 : x < 1) :
+    imageCube n m x = (cubeY n (digitsOf n m ⌊x * (2^n)^m⌋₊)).map
+      (fun (Y : Int) => (Y : α) / 2^(m+1)) :=
+  Num.imageCube_cell hn m x h0 h1
+
+/-- **C07 (end rule)**: for `x ≥ 1` (the code's `x >= 1.0` rule) the image is the centre of the
+last cell, the one with all digits `2^n - 1`. -/
+theorem C07_image_cell_end {n : Nat} (hn : 2 ≤ n ∧ n ≤ 5) (m : Nat) (x : α) (h1 : 1 ≤ x) :
+    imageCube n m x = (cubeY n (List.replicate m (2^n - 1))).map
+      (fun (Y : Int) => (Y : α) / 2^(m+1)) :=
+  Num.imageCube_end hn m x h1
+
+/-- non-vacuity of `C07_image_cell`: `n = 2`, `m = 2`, `x = 3/7` lies in subinterval
+`⌊48/7⌋ = 6` of 16, digits `[1, 2]`. -/
+example : imageCube 2 2 (3/7 : ℚ) = (cubeY 2 [1, 2]).map (fun (Y : Int) => (Y : ℚ) / 2^(2+1)) := by
+  have h := C07_image_cell (α := ℚ) (n := 2) (by omega) 2 (3/7) (by norm_num) (by norm_num)
+  have e : ⌊(3/7 : ℚ) * (2^2)^2⌋₊ = 6 := by
+    rw [Nat.floor_eq_iff (by norm_num)]; norm_num
+  rw [e] at h
+  exact h
+
+/-- non-vacuity of `C07_image_cell_end` -/
+example : imageCube 2 2 (1 : ℚ) = (cubeY 2 [3, 3]).map (fun (Y : Int) => (Y : ℚ) / 2^(2+1)) :=
+  C07_image_cell_end (α := ℚ) (n := 2) (by omega) 2 1 (le_refl _)
+
+/-- **C07 (GetImage stays in the box)**: for N = 2..5, bounds with `lower_i < upper_i`, and EVERY
+argument `x` (also `x ≥ 1`, the end rule), `GetImage x` has `n` coordinates, each strictly between
+`lower_i` and `upper_i`. -/
+theorem C07_getImage_in_box {n : Nat} (hn : 2 ≤ n ∧ n ≤ 5) (m : Nat) (lower upper : List α)
+    (hl : lower.length = n) (hu : upper.length = n)
+    (hlt : ∀ i (h1 : i < lower.length) (h2 : i < upper.length), lower[i] < upper[i]) (x : α) :
+    (getImage n m lower upper x).length = n ∧
+    ∀ i (hp : i < (getImage n m lower upper x).length) (h1 : i < lower.length)
+      (h2 : i < upper.length),
+      lower[i] < (getImage n m lower upper x)[i] ∧ (getImage n m lower upper x)[i] < upper[i] :=
+  Num.getImage_in_box hn m lower upper hl hu hlt x
+
+/-- non-vacuity of `C07_getImage_in_box` -/
+example : (getImage 2 3 [(-1 : ℚ), 0] [2, 3] (3/7)).length = 2 :=
+  (C07_getImage_in_box (α := ℚ) (n := 2) (by omega) 3 [(-1 : ℚ), 0] [2, 3] rfl rfl
+    (by intro i h1 h2
+        have : i = 0 ∨ i = 1 := by simp at h1; omega
+        rcases this with rfl | rfl <;> norm_num) (3/7)).1
 
 /-- **C07 (N = 1)**: for one variable `GetImage` is the affine map `x ↦ a + x (b - a)`. -/
 theorem C07_dim1_image (m : Nat) (a b x : α) : getImage 1 m [a] [b] x = [a + x * (b - a)] := by
